@@ -457,7 +457,7 @@ class MetaApplication(Application):
         self._main_page_render = self._arf('meta_base.html')
         routes = [('/', self.get_main, self.render_main_page_html),
                   ('/clastic_assets/', META_ASSETS_APP),
-                  ('/json/', self.get_main, render_json)]
+                  ('/json/', self.get_main, self.render_main_page_json)]
         for peri in self.peripherals:
             routes.extend(peri.get_extra_routes())
         resources = {'_meta_start_time': datetime.datetime.utcnow(),
@@ -481,6 +481,15 @@ class MetaApplication(Application):
                 peri_ctx = {'exc_content': repr(e)}
             full_ctx.setdefault(peri.group_key, {}).update(peri_ctx)
         return full_ctx
+
+    def render_main_page_json(self, context):
+        # only what get_main() put together: render middlewares of the
+        # host (context processors) may have added values of their
+        # own, resources included
+        own_keys = set(['page_title', 'script_root'])
+        own_keys.update([peri.group_key for peri in self.peripherals])
+        return render_json(dict([(k, v) for k, v in context.items()
+                                 if k in own_keys]))
 
     def render_main_page_html(self, context):
         context['sections'] = []
